@@ -132,6 +132,51 @@ pub fn main(args: &[String]) {
                 }
             }
         }
+        "indexerrors" => {
+            // "accessor and mutator calls with out-of-range child indices return an error rather than panic": every
+            // index-taking method of TaffyTree, on parents with 0..3 children, with every index / range around the bounds.
+            // One line per call that does not behave: `PANIC <method> <args>` / `ACCEPTED <method> <args>` / `CHANGED ...`
+            use std::panic::{catch_unwind, AssertUnwindSafe};
+            let mut calls = 0u64;
+            for n in 0usize..4 {
+                let build = || {
+                    let mut t: TaffyTree<()> = TaffyTree::new();
+                    let kids: Vec<NodeId> = (0..n).map(|_| t.new_leaf(Style::DEFAULT).unwrap()).collect();
+                    let p = t.new_with_children(Style::DEFAULT, &kids).unwrap();
+                    let extra = t.new_leaf(Style::DEFAULT).unwrap();
+                    (t, p, kids, extra)
+                };
+                let mut probe = |name: &str, arg: String, f: &dyn Fn(&mut TaffyTree<()>, NodeId, NodeId) -> bool| {
+                    calls += 1;
+                    let (mut t, p, kids, extra) = build();
+                    let r = catch_unwind(AssertUnwindSafe(|| f(&mut t, p, extra)));
+                    match r {
+                        Err(_) => println!("PANIC {name} {arg} (parent has {n} children)"),
+                        Ok(true) => println!("ACCEPTED {name} {arg} (parent has {n} children)"),
+                        Ok(false) => {
+                            if t.children(p).unwrap() != kids || t.parent(extra).is_some() {
+                                println!("CHANGED {name} {arg}: the error path modified the tree (parent has {n} children)");
+                            }
+                        }
+                    }
+                };
+                for idx in [n, n + 1, n + 7, usize::MAX] {
+                    probe("child_at_index", format!("{idx}"), &|t, p, _| t.child_at_index(p, idx).is_ok());
+                    probe("remove_child_at_index", format!("{idx}"), &|t, p, _| t.remove_child_at_index(p, idx).is_ok());
+                    probe("replace_child_at_index", format!("{idx}"), &|t, p, e| t.replace_child_at_index(p, idx, e).is_ok());
+                    if idx > n {
+                        probe("insert_child_at_index", format!("{idx}"), &|t, p, e| t.insert_child_at_index(p, idx, e).is_ok());
+                    }
+                }
+                for (a, b) in [(0, n + 1), (n, n + 1), (n + 1, n + 1), (n + 1, n + 3), (0, usize::MAX)] {
+                    probe("remove_children_range", format!("{a}..{b}"), &|t, p, _| t.remove_children_range(p, a..b).is_ok());
+                }
+                if n >= 1 {
+                    probe("remove_children_range", format!("{}..{}", n, n - 1), &|t, p, _| t.remove_children_range(p, n..n - 1).is_ok());
+                }
+            }
+            println!("INDEXERRORS calls {calls}");
+        }
         "corpus" => {
             // regression corpus: minimal reproducers of repaired defects (known_findings.json, status fixed)
             let which: usize = args[1].parse().unwrap();
